@@ -1205,6 +1205,11 @@ fn check_c11_dump(c: &mut Ctx, node: usize, d: &RoomDump) {
 fn check_c18_ingest(c: &mut Ctx, p: usize, room: usize, before: &RoomDump) -> Result<(), String> {
     let after = dump(c, p, room)?;
     let evs = c.w.nodes[p].drain_events();
+    if c.w.nodes[p].events_lagged > 0 {
+        c.w.probe("c18_subscriber_lagged_not_judged");
+        c.w.nodes[p].events_lagged = 0;
+        return Ok(());
+    }
     let mut announced: BTreeSet<(String, i64)> = BTreeSet::new();
     let rid = c.rooms[room].1.clone();
     for e in evs {
